@@ -1,5 +1,6 @@
 """C01 - event timestamps equal the exact tempo-map time of their tick."""
 from vf.runner import Ob
+from .common import _sync_section, _two_maps, _e2e  # noqa: F401
 from .common import *  # noqa: F401,F403
 from .common import _ned
 
@@ -43,12 +44,17 @@ def obligations(tier):
                       {"VF_KIND": kind}, funcs=(SY + "TimeSignatureEvent.from_parsed_data", IN + "SpecialEvent.from_parsed_data",
                                                 IN + "TrackEvent.from_parsed_data", GL + "GlobalEvent.from_parsed_data")))
     obs += _ned("C01.note_event_dataflow", tier, (IN + "NoteEvent.from_parsed_data",))
+    obs += _sync_section("C01", ["0,1,3", "0,2,1"]) + [_two_maps("C01")] + _e2e("C01", [0, 3] if tier == "quick" else [0, 1, 3, 7])
     obs.append(Ob("C01.builder_threading", "CH", "harness.h_events", "builder_threading", 120, funcs=(TR + "build_events_from_data",)))
     idxs = ["0,1", "0,6,1"] if tier == "quick" else ["0,1", "0,6,1", "7,2", "3,3,4", "0,1,5"]
     for ix in idxs:
         obs.append(Ob(f"C01.integrated.note_section[{ix}]", "CH", "harness.h_integrated", "note_section", 900, {"VF_IDX": ix, "VF_ORDER": 2},
                       funcs=(IN + "InstrumentTrack.from_chart_lines", IN + "NoteEvent.from_parsed_data", SY + "BPMEvents.timestamp_at_tick"),
                       bounds="token lines, 2 tempo events, linear clock: stored times equal the clock's exact time"))
+    obs.append(Ob("C01.long_history", "CH", "harness.h_hist", "long_history", 1200,
+                  funcs=("chartparse.chart.Chart.from_file (whole pipeline, native execution)",),
+                  bounds="30/120/400 parses in one fresh interpreter alternating two of four texts that share every tick but differ in tempo map / resolution, "
+                         "each chart dropped at once (freed objects, recycled addresses): every parse identical to the first parse of its text"))
     return obs
 
 
